@@ -18,11 +18,17 @@ from harness.common import REPO, g_N
 PROPERTY = "C08"
 
 HEADER = ("From Coq Require Import List NArith Bool String.\nImport ListNotations.\n"
-          "From RopeVerif.C08 Require Import Template Runner.\nLocal Open Scope N_scope.\n"
+          "From RopeVerif.C08 Require Import Template Fragment Runner.\nLocal Open Scope N_scope.\n"
           "Local Open Scope list_scope.\n")
 
-CLS = {name: i for i, name in enumerate(sorted(
+# class numbers: fixed for the classes of the transcribed template table (coq/C08/Fragment.v), 100 + rank otherwise
+CLS_FIXED = {"Module": 1, "Expr": 2, "Name": 3, "Attribute": 4, "Call": 5, "BinOp": 6, "UnaryOp": 7, "BoolOp": 8,
+             "Compare": 9, "Subscript": 10, "Tuple": 11, "List": 12, "Constant": 13, "Assign": 14, "Return": 15,
+             "If": 16, "While": 17, "For": 18, "FunctionDef": 19, "arguments": 20, "arg": 21, "Import": 22,
+             "alias": 23, "keyword": 24, "Starred": 25, "Pass": 26}
+CLS = {name: 100 + i for i, name in enumerate(sorted(
     n for n in dir(ast) if isinstance(getattr(ast, n), type) and issubclass(getattr(ast, n), ast.AST)))}
+CLS.update(CLS_FIXED)
 
 ERR_CODE = {"MismatchedTokenError": 1, "AttributeError": 2, "ValueError": 3}
 
@@ -137,7 +143,16 @@ def case_term(src, res):
     else:
         rope = "Err %d" % ERR_CODE.get(res.error, 99)
     g_opt = "OC"      # the model is always run as the code is expected to be now (Template.options_current)
-    return "{| k_opt := %s; k_src := %s;\n   k_tree := %s;\n   k_rope := %s |}" % (g_opt, g_txt(src), tree, rope)
+    k_ast = "None"
+    if res.error is None:
+        from harness import c08_ast
+        sm = c08_oracle.SrcMap(src)
+        try:
+            k_ast = "(Some %s)" % c08_ast.to_ast(res.tree, src, lambda n: sm.off(n.lineno, n.col_offset), g_txt)
+        except c08_ast.NotInTable:
+            k_ast = "None"
+    return "{| k_opt := %s; k_src := %s;\n   k_tree := %s;\n   k_rope := %s;\n   k_ast := %s |}" % (
+        g_opt, g_txt(src), tree, rope, k_ast)
 
 
 # ----------------------------------------------------------------------------- signatures
@@ -150,7 +165,9 @@ MISMATCH_TEXT = {1: "model and rope both succeed but the annotated trees differ"
                  3: "model succeeds where rope raises",
                  4: "model and rope fail in different ways",
                  5: "a proved conclusion (cover / nesting / lossless) is false on the model's result",
-                 6: "model stops at rfind_token -> None although every oracle clause passes on rope's result"}
+                 6: "model stops at rfind_token -> None although every oracle clause passes on rope's result",
+                 7: "the template tree the walker built differs from Fragment.template_of of the ast (a _<NodeType> "
+                    "method no longer passes what the transcribed table says)"}
 
 
 # ----------------------------------------------------------------------------- checking a batch of sources
@@ -212,21 +229,28 @@ def check_sources(ctx, sources, label):
         shards.append(cur)
     for sh in shards:
         bodies.append(HEADER + "Definition cases : list case := [\n%s\n].\n"
-                      "Eval vm_compute in (mismatches cases).\nEval vm_compute in (count_domain cases).\n"
+                      "Eval vm_compute in (mismatches cases).\nEval vm_compute in (count_table cases).\n"
+                      "Eval vm_compute in (count_domain cases).\n"
                       % ";\n".join(cases[i][2] for i in sh))
     outs = ctx.coq_files_parallel(bodies) if bodies else []
     mism = {}
-    dom = 0
+    dom = tab = 0
     for sh, out in zip(shards, outs):
         pairs = ctx.parse_pairs(out)
         for (i, code) in (pairs[0] if pairs else []):
             mism[sh[i]] = code
         nums = ctx.parse_nums(out)
         dom += nums[-1][0] if nums and nums[-1] else 0
+        tab += nums[-2][0] if len(nums) >= 2 and nums[-2] else 0
     ctx.extra["cases_in_theorem_domain"] = ctx.extra.get("cases_in_theorem_domain", 0) + dom
+    ctx.extra["cases_whose_templates_are_checked_against_template_of"] = ctx.extra.get(
+        "cases_whose_templates_are_checked_against_template_of", 0) + tab
     for idx, (name, src, term, fails, err) in enumerate(cases):
         if term is not None:
             ctx.traces += 1
+        if idx in mism and mism[idx] not in (0, 6):
+            # attribution to a recorded finding presupposes that the model reproduces what rope did on this input
+            fails = [dict(f, sig="model-mismatch+" + f["sig"]) for f in fails]
         for f in fails:
             ctx.count("oracle-fail:" + f["sig"])
             known = f["sig"] in c08_oracle.FINDINGS and any(x.get("signature") == f["sig"] for x in ctx.findings)
@@ -292,7 +316,8 @@ def run(ctx):
                 "identifier pool), each kept only if compile() accepts it; (3) stress stream: adds the shapes of the "
                 "recorded findings (annotations, keyword-only/positional-only parameters, class keywords, type "
                 "parameters, rb'' prefixes, trailing-comma tuples, match, nested/escaped/concatenated "
-                "f-strings); (4) corpus: .py files of /repo/rope and /repo/ropetest (quick: 40 files "
+                "f-strings); (3b) table stream: only constructs of the transcribed template table "
+                "(coq/C08/Fragment.v), for which the captured templates must equal template_of(ast); (4) corpus: .py files of /repo/rope and /repo/ropetest (quick: 40 files "
                 "under 12 kB, thorough: all). A case is one source text; non-trivial = at least 8 annotated nodes; "
                 "distinct by source text. For each case the model is evaluated inside Coq on the captured template "
                 "tree and compared with rope's region/sorted_children of every node, and the oracle clauses "
@@ -304,10 +329,14 @@ def run(ctx):
                            "either commit shows up as a model/rope mismatch and through corpus/C08")
     from harness import c08_cases
     check_sources(ctx, [("fixed-%d" % i, s) for i, s in enumerate(FIXED + c08_cases.EXTRA)], "fixed")
-    n_core = ctx.scale(260, 4000)
-    n_stress = ctx.scale(120, 1500)
+    n_core = ctx.scale(220, 4000)
+    n_stress = ctx.scale(100, 1500)
     core = [("core-%d" % i, s) for i, (s, _) in enumerate(c08_gen.generate(ctx.rng, n_core, stress=False))]
     check_sources(ctx, core, "core")
+    if not ctx.too_many(12):
+        n_table = ctx.scale(100, 1500)
+        table = [("table-%d" % i, s) for i, (s, _) in enumerate(c08_gen.generate(ctx.rng, n_table, table=True))]
+        check_sources(ctx, table, "table")
     if not ctx.too_many(12):
         stress = []
         for i, (s, feat) in enumerate(c08_gen.generate(ctx.rng, n_stress, stress=True)):
